@@ -137,6 +137,15 @@ def corruptions(doc, ver, clsname=None, dictionary=None):
             out.append(_set(p, "dict:empty-list-value", {"key": []}))
             out.append(_set(p, "dict:empty-key", {"": 1}))
             out.append(_set(p, "dict:trailing-newline-key", {"abc\n": 1}))
+            # nulls and empty lists below the first level of the value (lists in lists, dictionaries in lists ...)
+            out.append(_set(p, "dict:null-in-list", {"key": ["a", None]}))
+            out.append(_set(p, "dict:null-in-list-last-of-many", {"key": ["a", "b", "c", "d", "e", "f", "g", "h", "i", "j", None]}))
+            out.append(_set(p, "dict:null-in-nested-dict", {"key": {"inner": None}}))
+            out.append(_set(p, "dict:null-deep", {"key": [{"inner": ["a", None]}]}))
+            out.append(_set(p, "dict:empty-list-in-list", {"key": [["a"], []]}))
+            out.append(_set(p, "dict:empty-list-in-nested-dict", {"key": {"inner": []}}))
+            out.append(_set(p, "dict:empty-list-deep", {"key": [{"inner": [[]]}]}))
+            out.append(_set(p, "dict:null-second-key", {"good": "v", "key": None}))
         elif k == "hashes":
             out.append(_set(p, "hash:unknown-alg", {"FOO-99": "abcd"}))
             out.append(_set(p, "hash:custom-alg", {"x_custom": "abcd"}))
